@@ -58,7 +58,7 @@ theorem error_builtin_exact (prog : List Stmt) (f : Nat) (st : Stmt) (rest : Lis
     evalCall prog (f+1) (st :: rest) (.var tok m0) args s =
       .err { cls := .runtime, line := st.meta.line, file := st.meta.file, msg := msg, out := s1.out } := by
   have hb : isBuiltin W.fnError = true := by decide
-  simp [evalCall, stripGroups, ht, hb, ha]
+  simp [evalCall, stripGroups, ht, hb, ha, curErr]
 
 /-- every failure of a built-in (wrong argument count or type, invalid position, file-system failure, text that
     is no number) is a runtime error located at the current statement, with the output so far -/
@@ -70,7 +70,7 @@ theorem builtin_fault_located (prog : List Stmt) (f : Nat) (st : Stmt) (rest : L
       .err { cls := .runtime, line := st.meta.line, file := st.meta.file, msg := tag, out := s1.out } := by
   have h1 : (tok.lexeme == W.fnError) = false := by simpa using hne
   have h2 : (tag == panicTag) = false := by simpa using hp
-  simp [evalCall, stripGroups, hb, ha, h1, hf, h2]
+  simp [evalCall, stripGroups, hb, ha, h1, hf, hp, curErr]
 
 /-- the run loop returns the first error unchanged: nothing after the failing statement runs -/
 theorem first_error_stops (prog : List Stmt) (g : GcMode) (f k : Nat) (st : Stmt) (rest : List Stmt) (s : St) (e : PErr)
